@@ -1022,6 +1022,14 @@ func sweeps(a Args, rng *Rng, out *Out) {
 		sweepDelays(out, drv.ImplHeap, 0, delays)
 	}
 	{
+		// the outermost level: delays that are placed in tvec[3] and must come down through every
+		// level (one walk of a little over 2^26 ticks)
+		base := int64(1 << 26)
+		delays := []int64{base - int64(rng.Range(1, 300)), base - 1, base, base + 1, base + int64(rng.Range(2, 1<<16)), base + 1<<20 + int64(rng.Intn(1<<14))}
+		sort.Slice(delays, func(i, j int) bool { return delays[i] < delays[j] })
+		sweepDelays(out, drv.ImplWheel, positions[rng.Intn(len(positions))], delays)
+	}
+	{
 		var delays []int64
 		for k := 0; k < 300; k++ {
 			delays = append(delays, int64(rng.Next()&0xFFFFFF))
